@@ -1075,7 +1075,19 @@ func c10withonlyTimeout(c *core.Ctx) bool {
 	only := ps.WithOnly(target)
 	variant := 2 + r.Intn(4) // PubWait, PubSliceWait, PubSync, PubSliceSync: finished when they return
 	evs := []int{1000, 1001, 1002, 1003}[:r.Range(1, 4)]
-	(&psRun{ps: only}).publish(variant, evs)
+	// with a timeout configured the call must come back; if it is parked for good (sending
+	// to the target without any timer) that is a proven hang, not a watchdog matter
+	var pw sync.WaitGroup
+	pw.Add(1)
+	go func() { defer pw.Done(); (&psRun{ps: only}).publish(variant, evs) }()
+	if st, where := core.WaitOrDeadlock(&pw, 2*time.Second, 60*time.Second); st != "done" {
+		if st == "deadlock" {
+			c.Violate("WithOnly:publish-never-returns", fmt.Sprintf("%s through a WithOnly clone of a PubSub with PubTimeoutAfter=%v (configured %s the first WithOnly call) to a subscriber nobody receives from never returns: every goroutine is parked for good (%s)", psVariants[variant], ps.PubTimeoutAfter, map[bool]string{true: "after", false: "before"}[late], where), nil)
+		} else {
+			c.Inconclusive("publish through a WithOnly clone did not return within the watchdog (no deadlock proven)")
+		}
+		return false
+	}
 	var delivered []int
 drain:
 	for {
